@@ -1,8 +1,10 @@
 import Driver.Util
 import Driver.Silmerge
+import Driver.Sillife
 -- engines of work area Silence: import your Driver.<Engine> modules above and list them here
 namespace Driver.Reg.Silence
 def engines : List (String × IO UInt32) := [
-  ("silmerge", Driver.runEngine Driver.Silmerge.engine)
+  ("silmerge", Driver.runEngine Driver.Silmerge.engine),
+  ("sillife", Driver.runEngine Driver.Sillife.engine)
 ]
 end Driver.Reg.Silence
